@@ -99,7 +99,7 @@ def main():
         g = item["g"]
         recs = []
         for qi, (x, y, z) in enumerate(item["qs"]):
-            for order in range(n_orders):
+            for order in range(min(n_orders, item.get("orders", n_orders))):
                 # second scenario: names V<perm(i)>, so alphabetical order and (topological) numbering are unrelated
                 ser.set_naming("permuted", gi * 31 + qi) if order == 1 else ser.set_naming("V")
                 graph = build_graph(g, order)
